@@ -44,6 +44,180 @@ type rewriter struct {
 	err     error
 	file    string
 	fset    *token.FileSet
+	// names known (syntactically) to denote channels: the enclosing function's
+	// parameters/locals, and the package's struct fields and variables
+	localChans map[string]bool
+}
+
+// pkgChans holds, for the package directory being rewritten, the names of struct
+// fields and package-level variables of channel type (collected from all files
+// of the directory before any of them is rewritten).
+var pkgChans = map[string]bool{}
+
+func isChanType(e ast.Expr) bool {
+	switch t := e.(type) {
+	case *ast.ChanType:
+		return true
+	case *ast.ParenExpr:
+		return isChanType(t.X)
+	}
+	return false
+}
+
+func isMakeChan(e ast.Expr) bool {
+	c, ok := e.(*ast.CallExpr)
+	if !ok || len(c.Args) == 0 {
+		return false
+	}
+	fn, ok := c.Fun.(*ast.Ident)
+	return ok && fn.Name == "make" && isChanType(c.Args[0])
+}
+
+// collectPkgChans scans one parsed file for channel-typed struct fields and
+// package-level variables.
+func collectPkgChans(f *ast.File) {
+	ast.Inspect(f, func(n ast.Node) bool {
+		if st, ok := n.(*ast.StructType); ok && st.Fields != nil {
+			for _, fl := range st.Fields.List {
+				if isChanType(fl.Type) {
+					for _, nm := range fl.Names {
+						pkgChans[nm.Name] = true
+					}
+				}
+			}
+		}
+		return true
+	})
+	for _, d := range f.Decls {
+		gd, ok := d.(*ast.GenDecl)
+		if !ok || gd.Tok != token.VAR {
+			continue
+		}
+		for _, sp := range gd.Specs {
+			vsp := sp.(*ast.ValueSpec)
+			for i, nm := range vsp.Names {
+				if (vsp.Type != nil && isChanType(vsp.Type)) || (i < len(vsp.Values) && isMakeChan(vsp.Values[i])) {
+					pkgChans[nm.Name] = true
+				}
+			}
+		}
+	}
+}
+
+// funcChans collects the names a function declares with channel type.
+func funcChans(fd *ast.FuncDecl) map[string]bool {
+	m := map[string]bool{}
+	fields := func(fl *ast.FieldList) {
+		if fl == nil {
+			return
+		}
+		for _, f := range fl.List {
+			if isChanType(f.Type) {
+				for _, nm := range f.Names {
+					m[nm.Name] = true
+				}
+			}
+		}
+	}
+	fields(fd.Type.Params)
+	fields(fd.Type.Results)
+	ast.Inspect(fd, func(n ast.Node) bool {
+		switch x := n.(type) {
+		case *ast.FuncLit:
+			fields(x.Type.Params)
+		case *ast.AssignStmt:
+			if x.Tok == token.DEFINE && len(x.Lhs) == len(x.Rhs) {
+				for i, l := range x.Lhs {
+					if li, ok := l.(*ast.Ident); ok && isMakeChan(x.Rhs[i]) {
+						m[li.Name] = true
+					}
+				}
+			}
+		case *ast.ValueSpec:
+			for i, nm := range x.Names {
+				if (x.Type != nil && isChanType(x.Type)) || (i < len(x.Values) && isMakeChan(x.Values[i])) {
+					m[nm.Name] = true
+				}
+			}
+		}
+		return true
+	})
+	return m
+}
+
+// rangesOverChan decides, without type information, whether the operand of a
+// range statement is a channel: a name declared with channel type in the
+// function or package, a selector of a channel-typed field (or a timer's C), a
+// call of a Done() method, or time.After/Tick.
+func (r *rewriter) rangesOverChan(e ast.Expr) bool {
+	switch x := e.(type) {
+	case *ast.ParenExpr:
+		return r.rangesOverChan(x.X)
+	case *ast.Ident:
+		return r.localChans[x.Name] || (x.Obj == nil && pkgChans[x.Name]) || (x.Obj != nil && x.Obj.Kind == ast.Var && pkgChans[x.Name] && !r.shadowed(x))
+	case *ast.SelectorExpr:
+		if p, ok := x.X.(*ast.Ident); ok && p.Name == "time" && (x.Sel.Name == "After" || x.Sel.Name == "Tick") {
+			return false // the call expression is handled below
+		}
+		return pkgChans[x.Sel.Name] || x.Sel.Name == "C"
+	case *ast.CallExpr:
+		if s, ok := x.Fun.(*ast.SelectorExpr); ok {
+			if s.Sel.Name == "Done" && len(x.Args) == 0 {
+				return true
+			}
+			if p, ok := s.X.(*ast.Ident); ok && p.Name == "time" && (s.Sel.Name == "After" || s.Sel.Name == "Tick") {
+				return true
+			}
+		}
+	}
+	return false
+}
+
+// shadowed: a package-level channel name that the function re-declares with
+// another type is not treated as a channel.
+func (r *rewriter) shadowed(x *ast.Ident) bool {
+	if x.Obj == nil || x.Obj.Decl == nil {
+		return false
+	}
+	switch d := x.Obj.Decl.(type) {
+	case *ast.ValueSpec:
+		return d.Type != nil && !isChanType(d.Type)
+	case *ast.Field:
+		return !isChanType(d.Type)
+	case *ast.AssignStmt:
+		return true
+	}
+	return false
+}
+
+// rangeChan rewrites `for v := range ch { body }` into a loop over vs.Recv2.
+func (r *rewriter) rangeChan(x *ast.RangeStmt) ast.Stmt {
+	r.usedVS = true
+	r.counter++
+	ch := fmt.Sprintf("_vsch%d", r.counter)
+	okName := fmt.Sprintf("_vsok%d", r.counter)
+	recv := call(sel("vs", "Recv2"), id(ch))
+	var head []ast.Stmt
+	brk := &ast.IfStmt{Cond: &ast.UnaryExpr{Op: token.NOT, X: id(okName)}, Body: &ast.BlockStmt{List: []ast.Stmt{&ast.BranchStmt{Tok: token.BREAK}}}}
+	switch {
+	case x.Key == nil:
+		head = []ast.Stmt{&ast.AssignStmt{Lhs: []ast.Expr{id("_"), id(okName)}, Tok: token.DEFINE, Rhs: []ast.Expr{recv}}, brk}
+	case x.Tok == token.DEFINE:
+		head = []ast.Stmt{&ast.AssignStmt{Lhs: []ast.Expr{x.Key, id(okName)}, Tok: token.DEFINE, Rhs: []ast.Expr{recv}}, brk}
+		if k, ok := x.Key.(*ast.Ident); ok && k.Name != "_" {
+			head = append(head, &ast.AssignStmt{Lhs: []ast.Expr{id("_")}, Tok: token.ASSIGN, Rhs: []ast.Expr{id(k.Name)}})
+		}
+	default:
+		v := fmt.Sprintf("_vsv%d", r.counter)
+		head = []ast.Stmt{&ast.AssignStmt{Lhs: []ast.Expr{id(v), id(okName)}, Tok: token.DEFINE, Rhs: []ast.Expr{recv}}, brk,
+			&ast.AssignStmt{Lhs: []ast.Expr{r.expr(x.Key)}, Tok: token.ASSIGN, Rhs: []ast.Expr{id(v)}}}
+	}
+	r.rw(x.Body)
+	body := &ast.BlockStmt{List: append(head, x.Body.List...)}
+	return &ast.ForStmt{
+		Init: &ast.AssignStmt{Lhs: []ast.Expr{id(ch)}, Tok: token.DEFINE, Rhs: []ast.Expr{r.expr(x.X)}},
+		Body: body,
+	}
 }
 
 func id(s string) *ast.Ident   { return ast.NewIdent(s) }
@@ -67,6 +241,19 @@ func Generate(repo, outDir string, tags []string) (string, error) {
 				continue
 			}
 			return "", err
+		}
+		pkgChans = map[string]bool{}
+		for _, e := range ents {
+			n := e.Name()
+			if e.IsDir() || !strings.HasSuffix(n, ".go") || strings.HasSuffix(n, "_test.go") {
+				continue
+			}
+			if ok, _ := ctxt.MatchFile(dir, n); !ok {
+				continue
+			}
+			if pf, err := parser.ParseFile(token.NewFileSet(), filepath.Join(dir, n), nil, 0); err == nil {
+				collectPkgChans(pf)
+			}
 		}
 		for _, e := range ents {
 			n := e.Name()
@@ -149,7 +336,9 @@ func (r *rewriter) rewriteFile(f *ast.File) bool {
 		switch x := d.(type) {
 		case *ast.FuncDecl:
 			if x.Body != nil {
+				r.localChans = funcChans(x)
 				r.rw(x.Body)
+				r.localChans = nil
 			}
 		case *ast.GenDecl:
 			for _, sp := range x.Specs {
@@ -454,8 +643,12 @@ func (r *rewriter) rw(n ast.Node) ast.Node {
 		r.rw(x.Body)
 		return x
 	case *ast.RangeStmt:
-		// NOTE: without type information `for range ch` cannot be recognised;
-		// an uninstrumented blocking receive is caught by the scheduler watchdog.
+		// without type information a range over a channel is recognised
+		// syntactically (rangesOverChan); one that is missed blocks natively and
+		// is caught by the scheduler watchdog (engine error, never a verdict)
+		if x.Value == nil && r.rangesOverChan(x.X) {
+			return r.rangeChan(x)
+		}
 		x.X = r.expr(x.X)
 		r.rw(x.Body)
 		return x
@@ -487,6 +680,10 @@ func (r *rewriter) rw(n ast.Node) ast.Node {
 	case *ast.LabeledStmt:
 		if s, ok := x.Stmt.(*ast.SelectStmt); ok {
 			return r.selectStmt(s, x.Label)
+		}
+		if s, ok := x.Stmt.(*ast.RangeStmt); ok && s.Value == nil && r.rangesOverChan(s.X) {
+			x.Stmt = r.rangeChan(s)
+			return x
 		}
 		x.Stmt = r.rw(x.Stmt).(ast.Stmt)
 		return x
